@@ -30,7 +30,7 @@ Fresh(k) == CHOOSE s \in [1..k -> 1..(MaxLen1 + MaxLen2 + k)] :
                 /\ \A x \in 1..(MaxLen1 + MaxLen2 + k) : (x \notin AllIds /\ x < s[k]) => x \in Range(s)
 nid == Fresh(1)[1]
 NewC(n, a, id) == [id |-> id, o |-> n, s |-> Useful(n), m |-> 0, a |-> a]
-UpdC(c, a, m)  == [c EXCEPT !.a = IF a = 0 THEN @ ELSE a, !.m = IF m # 0 /\ m > @ THEN m ELSE @]
+UpdC(c, a, m)  == [c EXCEPT !.a = IF a = 0 THEN @ ELSE a, !.m = C!NewMeta(@, m)]
 
 SetData(L, e) ==
     LET n  == Len(L)
@@ -70,7 +70,7 @@ Ops(t, L, mx) ==
     \cup {[op |-> "insert_curve", t |-> t, i |-> i, n |-> x, a |-> 1, nid |-> nid] : i \in -(n + 1)..(n + 1), x \in Names}
     \cup {[op |-> "delete_ix", t |-> t, i |-> i] : i \in -(n + 1)..n}
     \cup {[op |-> "delete_mn", t |-> t, k |-> k] : k \in KeysOf(L)}
-    \cup {[op |-> "update_mn", t |-> t, k |-> k, a |-> am[1], m |-> am[2]] : k \in KeysOf(L), am \in {<<3, 0>>, <<0, 1>>}}
+    \cup {[op |-> "update_mn", t |-> t, k |-> k, a |-> am[1], m |-> am[2]] : k \in KeysOf(L), am \in {<<3, 0>>, <<0, 1>>, <<0, 8>>}}
     \cup {[op |-> "update_ix", t |-> t, i |-> i, a |-> 3, m |-> 1] : i \in -(n + 1)..n}
     \cup {[op |-> "replace_item", t |-> t, i |-> i, n |-> x, a |-> 2, nid |-> nid] : i \in -(n + 1)..n, x \in Names}
     \cup {[op |-> "setitem_arr", t |-> t, k |-> k, a |-> 3, nid |-> nid] : k \in KeysOf(L) \cup Names}
